@@ -5,6 +5,7 @@
 import Gnet.Spec.ReactorSpec
 import Gnet.Proofs.ReactorLife
 import Gnet.Props.Handover
+import Gnet.Props.Drain
 import Gnet.Spec.ReactorExample
 import Gnet.Proofs.ReactorRuns
 namespace Gnet.Props.C07
@@ -26,34 +27,35 @@ theorem fd_discipline_all_histories (cfg : Cfg) (rounds : List (List Tok)) (s' :
 c1, and ends with the descriptor closed. -/
 example : (Example.after 3).bind Example.lifeView = some (["open", "traffic", "close"], false) := by decide +kernel
 
-/-! ### Hand-over of accepted connections and shutdown (model: Model/Handover.lean)
+/-! ### Hand-over of accepted connections and shutdown (models: Model/Handover.lean, Model/Drain.lean)
 
-Stated and proved in Props/Handover.lean for every reachable state of the hand-over model (any number of
-loops, any schedule); restated here because they are obligations of C07: every descriptor the acceptor
-creates is in exactly one place, and when everything has stopped the unclosed ones are exactly the
-registrations stranded in the queue of a loop that left Polling first (the recorded finding). -/
+Stated and proved in Props/Handover.lean and Props/Drain.lean; restated here because they are obligations of C07. Every
+descriptor the acceptor or an enrolment creates is in exactly one place; a registration handed to an event loop is
+either carried out by that loop or aborted (descriptor closed) - by the loop when it leaves Polling, or by whoever
+handed it over if the loop had exited already - so when everything has stopped every descriptor has been closed.
+(Until the fix a1bc45e+1 "registrations handed to an event loop that has exited are aborted" the code did neither: the
+former theorems `leak_reachable_by_action` / `leak_reachable_by_stop` stated the leak, which the descriptor-count
+oracle had found on the real engine.) -/
 
 theorem handover_partition (s : Handover.State) (h : Handover.Reachable s) :
     (Handover.pending s ++ Handover.registered s ++ s.closed).Perm (Handover.created s) :=
   Props.Handover.handover_partition s h
 
-theorem final_unclosed_are_stranded (s : Handover.State) (h : Handover.Reachable s) (hf : Handover.Final s = true) :
-    ∀ fd, fd ∈ Handover.unclosed s ↔ fd ∈ Handover.pending s :=
-  Props.Handover.final_unclosed_are_stranded s h hf
+theorem pending_only_on_running_loops (s : Handover.State) (h : Handover.Reachable s) (l : Nat) (x : Handover.Loop)
+    (hx : s.loops[l]? = some x) (hr : x.running = false) : Handover.pendingOf x = [] ∧ x.conns = [] :=
+  Props.Handover.pending_only_on_running_loops s h l x hx hr
 
-theorem no_stranded_no_leak (s : Handover.State) (h : Handover.Reachable s) (hf : Handover.Final s = true)
-    (hp : Handover.pending s = []) : s.closed.Perm (Handover.created s) :=
-  Props.Handover.no_stranded_no_leak s h hf hp
+theorem final_no_leak (s : Handover.State) (h : Handover.Reachable s) (hf : Handover.Final s = true) :
+    Handover.unclosed s = [] ∧ s.closed.Perm (Handover.created s) :=
+  Props.Handover.final_no_leak s h hf
 
-theorem leak_reachable_by_action :
-    let s := Handover.run (Handover.init 1) [.accept 0, .accept 0, .exec 0, .action 0, .postSentinels, .acceptorExit]
-    Handover.Final s = true ∧ Handover.unclosed s = [1] :=
-  Props.Handover.leak_reachable_by_action
+/-- the interleaved protocol behind the atomic abort of the model above: no registration is stranded -/
+theorem nothing_stranded (s : Drain.State) (h : Drain.Reachable s) (hq : Drain.Quiescent s = true) : s.queue = [] :=
+  Props.Drain.nothing_stranded s h hq
 
-theorem leak_reachable_by_stop :
-    let s := Handover.run (Handover.init 2) [.requestStop, .postSentinels, .accept 1, .exec 0, .exec 1, .acceptorExit]
-    Handover.Final s = true ∧ Handover.unclosed s = [0] :=
-  Props.Handover.leak_reachable_by_stop
+theorem drain_partition (s : Drain.State) (h : Drain.Reachable s) :
+    (s.ran ++ s.aborted ++ s.queue).Perm (List.range s.next) :=
+  Props.Drain.drain_partition s h
 
 end Gnet.Props.C07
 
